@@ -372,11 +372,17 @@ func (rc replayCollector) Collect(ch chan<- prometheus.Metric) {
 	}
 }
 
-// collectDirect calls Collect in this goroutine. The channel is large enough for every case
-// of this harness; a full channel would block forever, so overflow is turned into a panic of
-// the harness's own making (never observed).
-func collectDirect(col prometheus.Collector) (ms []prometheus.Metric, panicked any, stack string) {
-	ch := make(chan prometheus.Metric, 256)
+// collectDirect calls Collect in this goroutine, so that a panic is recoverable; a helper
+// goroutine drains the channel.
+func collectDirect(col prometheus.Collector) (ms []prometheus.Metric, panicked any) {
+	ch := make(chan prometheus.Metric, 64)
+	done := make(chan struct{})
+	go func() {
+		for m := range ch {
+			ms = append(ms, m)
+		}
+		close(done)
+	}()
 	func() {
 		defer func() {
 			if p := recover(); p != nil {
@@ -386,10 +392,8 @@ func collectDirect(col prometheus.Collector) (ms []prometheus.Metric, panicked a
 		col.Collect(ch)
 	}()
 	close(ch)
-	for m := range ch {
-		ms = append(ms, m)
-	}
-	return ms, panicked, ""
+	<-done
+	return ms, panicked
 }
 
 type c18Case struct {
@@ -426,46 +430,35 @@ func describeSets(sets []c18Set) []string {
 }
 
 // nameClass: class of an instrument name for finding keys, computed from the input only.
-func nameClass(name, unitWord string) string {
-	cls := func(tok string) string {
-		switch {
-		case tok == "total":
-			return "total"
-		case tok == "Total":
-			return "Total"
-		case unitWord != "" && tok == unitWord:
-			return "the unit word"
-		case tok == "seconds" || tok == "bytes" || tok == "ratio":
-			return "another unit word"
-		}
-		return "plain"
-	}
+func nameClass(name string) string {
 	i := strings.LastIndexAny(name, "_.-/")
-	if i < 0 {
-		if name == "total" {
-			return "name is exactly total"
-		}
-		return "one token (" + cls(name) + ")"
+	last := name[i+1:]
+	switch {
+	case name == "total":
+		return "name is exactly total"
+	case last == "total":
+		return "name ends with a delimiter and total"
+	case last == "Total":
+		return "name ends with Total"
 	}
-	sep := "_"
-	if name[i] != '_' {
-		sep = "non-underscore delimiter"
-	}
-	last := cls(name[i+1:])
-	out := "last token " + last + " after " + sep
-	if last == "total" {
-		rest := name[:i]
-		j := strings.LastIndexAny(rest, "_.-/")
-		out += ", preceded by " + cls(rest[j+1:])
-	}
-	return out
+	return "name without total suffix"
 }
 
-func unitClass(unit string) string {
-	if w, ok := refUnitWords[unit]; ok {
-		return "unit " + unit + " (" + w + ")"
+// unitClass: what the unit asks of the name (input only): nothing, a suffix the name lacks,
+// or a suffix the name (before a trailing total) already ends with.
+func unitClass(name, unit string, opt c18Opt) string {
+	w := refUnitWords[unit]
+	if w == "" || opt.noUnits {
+		return "no unit suffix"
 	}
-	return "unit without suffix"
+	stem := name
+	if i := strings.LastIndexAny(name, "_.-/"); i >= 0 && name[i+1:] == "total" {
+		stem = name[:i]
+	}
+	if i := strings.LastIndexAny(stem, "_.-/"); stem[i+1:] == w {
+		return "unit word already in the name"
+	}
+	return "unit suffix to add"
 }
 
 var reBraces = regexp.MustCompile(`"[^"]*"|\{[^}]*\}|[0-9]+`)
@@ -603,7 +596,7 @@ func actualValue(f *dto.MetricFamily, m *dto.Metric) (ok bool, v refValue) {
 func (c *c18Run) one(name, unit string, kind c18Kind, opt c18Opt, legacy bool, sets []c18Set) {
 	r := c.r
 	cas := c18Case{Name: name, Unit: unit, Kind: kind.id, Opt: opt.id, Scheme: schemeName(legacy), Sets: describeSets(sets)}
-	ncls := nameClass(name, refUnitWords[unit])
+	ncls := nameClass(name)
 
 	saved := model.NameValidationScheme //nolint:staticcheck // this is how this version of the exporter selects the scheme
 	if legacy {
@@ -644,27 +637,31 @@ func (c *c18Run) one(name, unit string, kind c18Kind, opt c18Opt, legacy bool, s
 		return
 	}
 
-	// ---- scrape 1: Collect driven directly, recoverable
-	r.Eval()
-	ms, panicked, _ := collectDirect(reg.got)
-	if panicked != nil {
-		r.FailHere("panic|Collect|"+counterClass(kind)+"|"+ncls, cas, "collector.Collect panicked: %v", panicked)
-		return
-	}
-	rr := prometheus.NewRegistry()
-	if err := rr.Register(replayCollector(ms)); err != nil {
-		r.FailHere("harness|replay registry", cas, "%v", err)
-		return
-	}
+	// ---- scrapes 1 and 2: Collect driven directly in this goroutine, recoverable. The first
+	// fills the collector's caches (target info, scope infos, metric families, resource
+	// labels), the second runs on the cached paths. What Collect sent is handed to a fresh
+	// Registry, whose Gather applies the registry's consistency checks.
 	var scrapes []scrape
-	f1, e1 := rr.Gather()
-	scrapes = append(scrapes, scrape{"direct Collect (first scrape), fed to a fresh Registry", f1, e1})
-	// ---- scrapes 2 and 3: Registry.Gather (its goroutines run the same deterministic Collect)
-	for i := 2; i <= 3; i++ {
+	for i, what := range []string{"first scrape (Collect called directly, output gathered by a fresh Registry)", "second scrape (Collect called directly, output gathered by a fresh Registry)"} {
 		r.Eval()
-		f, e := reg.Gather()
-		scrapes = append(scrapes, scrape{fmt.Sprintf("Registry.Gather (scrape %d)", i), f, e})
+		ms, panicked := collectDirect(reg.got)
+		if panicked != nil {
+			r.FailHere("panic|Collect|"+counterClass(kind)+"|"+ncls, cas, "collector.Collect panicked on scrape %d: %v", i+1, panicked)
+			return
+		}
+		rr := prometheus.NewRegistry()
+		if err := rr.Register(replayCollector(ms)); err != nil {
+			r.FailHere("harness|replay registry", cas, "%v", err)
+			return
+		}
+		f, e := rr.Gather()
+		scrapes = append(scrapes, scrape{what, f, e})
 	}
+	// ---- scrape 3: the exporter's own Registry. Its goroutines run the same deterministic
+	// Collect that has just returned twice; the Guard above attributes a process death anyway.
+	r.Eval()
+	f3, e3 := reg.Gather()
+	scrapes = append(scrapes, scrape{"third scrape (Registry.Gather on the exporter's registry)", f3, e3})
 
 	// ---- what the SDK aggregated: a second ManualReader on the same provider
 	var rm metricdata.ResourceMetrics
@@ -697,7 +694,7 @@ func (c *c18Run) one(name, unit string, kind c18Kind, opt c18Opt, legacy bool, s
 			same = same || (canon[j] == canon[i] && (scrapes[j].err == nil) == (s.err == nil))
 		}
 		if !same {
-			c.judge(s, cas, kind, opt, legacy, sets, pts, wantNames, ncls, unitClass(unit))
+			c.judge(s, cas, kind, opt, legacy, sets, pts, wantNames, ncls, unitClass(name, unit, opt))
 		}
 	}
 	// ---- determinism: consecutive scrapes of unchanged data expose the same thing
@@ -707,14 +704,14 @@ func (c *c18Run) one(name, unit string, kind c18Kind, opt c18Opt, legacy bool, s
 			break
 		}
 	}
-	for _, f := range scrapes[1].fams {
+	for _, f := range scrapes[2].fams {
 		if n := f.GetName(); n != targetInfoMetricName && n != scopeInfoMetricName {
 			r.Outcome(n + " " + f.GetType().String())
 		}
 	}
 	r.Sample(func() any {
 		var fams []string
-		for _, f := range scrapes[1].fams {
+		for _, f := range scrapes[2].fams {
 			fams = append(fams, f.GetName())
 		}
 		return map[string]any{"case": cas, "exposed_families": fams, "admitted_names": wantNames}
@@ -825,6 +822,20 @@ func (c *c18Run) judge(s scrape, cas c18Case, kind c18Kind, opt c18Opt, legacy b
 		}
 		m, ok := actual[ls]
 		if !ok {
+			// is the point there with its own labels right and only the constant (scope /
+			// resource) labels wrong? Then the finding is about those, not about this set.
+			own := refLabels(p.attrs, legacy)
+			for _, am := range fam.Metric {
+				has := 0
+				for _, lp := range am.Label {
+					if v, ok := own[lp.GetName()]; ok && v == lp.GetValue() {
+						has++
+					}
+				}
+				if has == len(own) && !exactExpected(am, pts, legacy, extra) && onlyConstNames(am, own, legacy) {
+					class = "scope and resource labels"
+				}
+			}
 			r.FailHere("labels|"+dropClass(kind, sch, []c18Set{{class: class}}), cas, "%s: no series with labels {%s} in %s; exposed label sets: %q (errors handled by the exporter: %q)", s.what, ls, fam.GetName(), actualKeys, c.handled)
 			continue
 		}
@@ -869,6 +880,36 @@ func kvID(kvs []attribute.KeyValue) string {
 	}
 	sort.Strings(p)
 	return strings.Join(p, ",")
+}
+
+// exactExpected: the exposed series is exactly what some aggregated point should look like.
+func exactExpected(am *dto.Metric, pts []refPoint, legacy bool, extra map[string]string) bool {
+	ls := labelString(am)
+	for _, p := range pts {
+		want := refLabels(p.attrs, legacy)
+		for k, v := range extra {
+			want[k] = v
+		}
+		if refLabelString(want) == ls {
+			return true
+		}
+	}
+	return false
+}
+
+// onlyConstNames: every label of the series that is not one of the point's own labels has
+// the name of a scope or resource label.
+func onlyConstNames(am *dto.Metric, own map[string]string, legacy bool) bool {
+	constNames := map[string]bool{"otel_scope_name": true, "otel_scope_version": true}
+	for k := range refLabels(c18ResourceKVs, legacy) {
+		constNames[k] = true
+	}
+	for _, lp := range am.Label {
+		if _, ok := own[lp.GetName()]; !ok && !constNames[lp.GetName()] {
+			return false
+		}
+	}
+	return true
 }
 
 func counterClass(k c18Kind) string {
@@ -937,6 +978,16 @@ func TestVerifC18(t *testing.T) {
 		r.Bound("name_separators", c18Seps)
 		r.Bound("units", c18Units)
 		r.Bound("scrapes_per_case", 3)
+		r.Bound("validation_schemes", []string{"utf8", "legacy"})
+		var kindIDs, optIDs []string
+		for _, k := range c18MainKinds {
+			kindIDs = append(kindIDs, k.id)
+		}
+		for _, o := range c18Opts {
+			optIDs = append(optIDs, o.id)
+		}
+		r.Bound("kinds", kindIDs)
+		r.Bound("options", optIDs)
 		r.Section(job)
 		parts := strings.Split(job, "/")
 		switch parts[0] {
